@@ -546,9 +546,14 @@ def run(ctx):
         clause2_ret(ctx, P, cg, own)
         clause3_release_hook(ctx, P, cg, own)
         c07.clause1_own(ctx, P, cg, own)
+        c07.clause16_handed_over_items(ctx, P)
         c02.clause1_overwrite(ctx, P, cg)
         c04.clause4_commit(ctx, P, cg)
         c08.clause2_who(ctx, P)
         c11.clause3_no_release(ctx, P, cg)
         c13.clause2_hook(ctx, P, cg)
         c01.clause9_refused_fetch_is_gone(ctx, P, cg)
+        from .c16 import clause9_matcher_count      # what a refusal in the middle of a rule releases
+        clause9_matcher_count(ctx, P)
+        from .c20 import clause4_effective           # an update that fails half-way (allocation, write) leaves the old credentials in force
+        clause4_effective(ctx, P, cg)
